@@ -256,10 +256,28 @@ func runC02(c *Ctx) {
 		}
 	}
 	for _, e := range enqs {
-		ok, why := capacityGuarded(e.instr.Block(), e.T, sizeField[e.T], q)
+		// the capacity test (and the wait) may live in a helper whose success result gates the effect
+		ok, why, gateHelpers := capacityGuardedA1(e.instr.Block(), e.T, sizeField[e.T], q, 3)
 		c.Check(ok, fmt.Sprintf("enqueue effect %s in %s gated by capacity test", instrKind(e.instr), fnName(e.fn)), p.Pos(e.instr.Pos()), "dominated by the not-over-capacity side of size+reqSize > capacity", why)
-		// Wait calls in the same function: guarded by blockOnOverflow==true; refusal on the other side
-		for _, w := range condCalls(e.fn, e.T, q.spaceField[e.T], "Wait") {
+		// Wait calls in the same function (and in the helpers that carry the capacity test): guarded by blockOnOverflow==true; refusal on the other side
+		type waitSite struct {
+			fn *ssa.Function
+			w  ssa.CallInstruction
+		}
+		var waits []waitSite
+		seenGate := map[*ssa.Function]bool{}
+		for _, g := range append([]*ssa.Function{e.fn}, gateHelpers...) {
+			if seenGate[g] {
+				continue
+			}
+			seenGate[g] = true
+			for _, w := range condCalls(g, e.T, q.spaceField[e.T], "Wait") {
+				waits = append(waits, waitSite{g, w})
+			}
+		}
+		for _, ws := range waits {
+			w := ws.w
+			e := enq{e.T, ws.fn, e.instr}
 			okB := false
 			for _, g := range guardsOf(w.Block()) {
 				v, br := boolOf(g)
